@@ -212,7 +212,42 @@ func (nopLogger) Printf(string, ...any) {}
 
 // ---------------------------------------------------------------------------
 
+// unsafeUnlimited reports whether reading wire as a chunked body WITHOUT a limit could make the real reader
+// allocate a huge buffer: some run of hex digits in it is a chunk size between 4 MiB and 2^50.  (Above
+// runtime.maxAlloc = 2^48 make() panics, which is recoverable and modelled; below it the Go runtime tries to
+// allocate and the whole process may die of out-of-memory.)  Such wires are read with a 1 MiB limit instead:
+// the property is about decoding what was written, not about unbounded allocation.
+func unsafeUnlimited(wire []byte) bool {
+	isHex := func(c byte) bool {
+		return c >= '0' && c <= '9' || c >= 'a' && c <= 'f' || c >= 'A' && c <= 'F'
+	}
+	for i := 0; i < len(wire); {
+		if !isHex(wire[i]) {
+			i++
+			continue
+		}
+		j := i
+		for j < len(wire) && isHex(wire[j]) {
+			j++
+		}
+		run := bytes.TrimLeft(wire[i:j], "0")
+		if len(run) > 0 && len(run) <= 15 {
+			if v, err := strconv.ParseUint(string(run), 16, 64); err == nil && v > 4<<20 && v <= 1<<50 {
+				return true
+			}
+		}
+		// longer suffixes of the run are what the reader sees after a misaligned start
+		i++
+	}
+	return false
+}
+
+const safeLimit = 1 << 20
+
 func runReadFn(d desc) hlib.Case {
+	if d.L <= 0 && d.Mode == "chunked" && unsafeUnlimited(d.Wire) {
+		d.L = safeLimit
+	}
 	dst, consumed, err, panicked := readFn(d.Mode, d.CL, d.L, d.Wire)
 	c := hlib.Case{Kind: "readfn-" + d.Mode, Size: len(d.Wire)}
 	c.Coq = hlib.App("CReadFn", coqMode(d.Mode), hlib.Z(int64(d.CL)), hlib.Z(int64(d.L)), lit(d.Wire), robs(dst, consumed, err, panicked), hlib.Z(int64(cap(dst))))
@@ -227,6 +262,9 @@ func runReadFn(d desc) hlib.Case {
 }
 
 func runReadMsg(d desc) hlib.Case {
+	if d.L <= 0 && d.Mode == "chunked" && unsafeUnlimited(d.Wire) {
+		d.L = safeLimit
+	}
 	body, consumed, err, panicked := readMessage(d.Mk, d.Mode, d.CL, d.L, d.Wire)
 	c := hlib.Case{Kind: "readmsg-" + d.Mode, Size: len(d.Wire)}
 	c.Coq = hlib.App("CReadMsg", coqMk(d.Mk), coqMode(d.Mode), hlib.Z(int64(d.CL)), hlib.Z(int64(d.L)), lit(d.Wire), robs(body, consumed, err, panicked))
